@@ -269,9 +269,17 @@ def auto_discharge(P, s):
                       if _same(f.expr_of_operand(c['term']['args'][0]), v)]
             if pushes and not shrink and any(f.dominates(c['block'], s['block']) for c in pushes):
                 return 'DC-JUST-PUSHED', 'len-1 dominated by a push on the same vector, which is never shrunk'
+    def _is_len(x):
+        x = strip(x)
+        return x[0] == 'call' and re.search(r'(Vec::<T, A>|slice::<impl \[T\]>|str::<impl str>|String|HashMap<.*>|HashSet<.*>|BTreeMap<.*>|VecDeque<.*>)::len$', x[1]) is not None
+    if s['kind'] == 'assert' and s['what'] == 'Overflow:Add' and len(s['ops']) == 2:
+        a, b = strip(s['ops'][0]), strip(s['ops'][1])
+        if (a[0] == 'int' and 0 <= a[1] <= 65536 and _is_len(b)) or (b[0] == 'int' and 0 <= b[1] <= 65536 and _is_len(a)):
+            return 'DC-COUNTER', 'length of an in-memory collection (at most isize::MAX elements) plus a small constant cannot overflow usize'
     if s['kind'] == 'alloc' and s['what'].endswith('with_capacity') and s['ops']:
         a = strip(s['ops'][0])
-        if a[0] == 'int' or (a[0] == 'call' and re.search(r'::(len|size_hint|count)$', a[1])):
+        small_plus_len = a[0] == 'bin' and a[1] == 'Add' and ((strip(a[2])[0] == 'int' and _is_len(a[3])) or (strip(a[3])[0] == 'int' and _is_len(a[2])))
+        if a[0] == 'int' or (a[0] == 'call' and re.search(r'::(len|size_hint|count)$', a[1])) or small_plus_len:
             return 'DC-COUNTER', 'capacity is a constant or the length of an existing collection (bounded by memory already in use)'
     if s['kind'] == 'index':
         full = s['callee'].get('rfull', '') + ' ' + ' '.join(s['callee'].get('gargs', []))
